@@ -224,8 +224,8 @@ def run(case):
                               if k not in ('datasets', 'alias')):
         probes['extra_top_level_scalar_with_merge'] = 1
     ok_merge = valid_merge(parts)
-    with warnings.catch_warnings():
-        warnings.simplefilter('ignore')
+    with warnings.catch_warnings(record=True):
+        warnings.simplefilter('always')    # recorded, not printed; never 'ignore': dependencies inspect warnings
         try:
             src = copy.deepcopy(parts)
             snap = [_norm_source(p) for p in src]
